@@ -134,7 +134,6 @@ class SymBool:
 
 class SymNum:
     __slots__ = ("c", "t", "isint")
-    __array_priority__ = 1000
 
     def __init__(self, c, t, isint):
         self.c = c
@@ -954,7 +953,6 @@ def _wrap(r):
 
 
 class XFrac(Fraction):
-    __array_priority__ = 1000
 
     def __add__(self, o): return _wrap(Fraction.__add__(self, _ex(o)))
     def __radd__(self, o): return _wrap(Fraction.__radd__(self, _ex(o)))
